@@ -5,7 +5,6 @@ import MythVerif.Proofs.WsQueueTsoTac
 namespace MythVerif.WsqTso
 open MythVerif.Wsq
 
-set_option maxHeartbeats 4000000 in
 /-- a buffered shift entry is the `memmove` of the logical window by the pending offset -/
 theorem shift_head (s : St) (h : Inv s) (lo hi off : Int) (rest : List Sto) (hb : s.bufO = .shift lo hi off :: rest) :
     lo = s.lb ∧ hi = s.lt ∧ off = s.sh ∧ resetting s.opc = true := by
